@@ -83,9 +83,9 @@ impl FeelYearsAndMonthsDuration {
 impl std::fmt::Display for FeelYearsAndMonthsDuration {
   fn fmt(&self, f: &mut std::fmt::Formatter<'_>) -> std::fmt::Result {
     let sign = if self.0 < 0 { "-" } else { "" };
-    let mut month = self.0.abs();
-    let year = month / MONTHS_IN_YEAR;
-    month -= year * MONTHS_IN_YEAR;
+    let mut month = (self.0 as i128).abs();
+    let year = month / MONTHS_IN_YEAR as i128;
+    month -= year * MONTHS_IN_YEAR as i128;
     match (year > 0, month > 0) {
       (false, false) => write!(f, "P0M"),
       (false, true) => write!(f, "{}P{}M", sign, month),
@@ -100,25 +100,20 @@ impl TryFrom<&str> for FeelYearsAndMonthsDuration {
   /// Converts a text into [FeelYearsAndMonthsDuration].
   fn try_from(value: &str) -> Result<Self, Self::Error> {
     if let Some(captures) = RE_YEARS_AND_MONTHS.captures(value) {
-      let mut is_valid = false;
-      let mut total_months = 0_i64;
-      if let Some(years_match) = captures.name("years") {
-        if let Ok(years) = years_match.as_str().parse::<u64>() {
-          total_months += (years as i64) * MONTHS_IN_YEAR;
-          is_valid = true;
+      // a component that is present must be representable, otherwise the literal is invalid
+      let years = captures.name("years").map(|m| m.as_str().parse::<i64>().ok());
+      let months = captures.name("months").map(|m| m.as_str().parse::<i64>().ok());
+      if years.is_some() || months.is_some() {
+        let total_months = years
+          .unwrap_or(Some(0))
+          .and_then(|y| y.checked_mul(MONTHS_IN_YEAR))
+          .and_then(|ym| months.unwrap_or(Some(0)).and_then(|m| ym.checked_add(m)));
+        if let Some(mut total_months) = total_months {
+          if captures.name("sign").is_some() {
+            total_months = -total_months;
+          }
+          return Ok(FeelYearsAndMonthsDuration(total_months));
         }
-      }
-      if let Some(months_match) = captures.name("months") {
-        if let Ok(months) = months_match.as_str().parse::<u64>() {
-          total_months += months as i64;
-          is_valid = true;
-        }
-      }
-      if captures.name("sign").is_some() {
-        total_months = -total_months;
-      }
-      if is_valid {
-        return Ok(FeelYearsAndMonthsDuration(total_months));
       }
     }
     Err(err_invalid_years_and_months_duration_literal(value))
